@@ -113,6 +113,8 @@ type Explorer struct {
 	ShardDepth     int
 	TrivialAsserts int
 	noShare        bool
+	UninitGlobals  map[string]int
+	stubLog        []value
 	RootPrefix     []Decision
 	Shed           func([][]Decision)
 	ShedEvery      time.Duration
@@ -127,7 +129,7 @@ type Explorer struct {
 
 func NewExplorer(s *Solver) *Explorer {
 	return &Explorer{S: s, noShare: os.Getenv("SYMX_NOSHARE") != "", MaxSteps: 3000000, MaxDepth: 400, MaxPaths: 200000,
-		FnsTouched: map[string]int{}, Params: map[string]string{}}
+		FnsTouched: map[string]int{}, Params: map[string]string{}, UninitGlobals: map[string]int{}}
 }
 
 func (e *Explorer) beginPath(prefix []Decision) {
@@ -158,6 +160,7 @@ func (e *Explorer) beginPath(prefix []Decision) {
 	e.asserts = 0
 	e.pcInfeasible = false
 	e.logical, e.shardHash, e.shardDone = 0, 2166136261, false
+	e.stubLog = nil
 	e.dom = map[string]bitset{}
 	e.entangled = map[string]bool{}
 	if e.S != nil {
@@ -565,6 +568,9 @@ func (e *Explorer) RunAll(body func(), onPath func(PathResult)) {
 func (e *Explorer) runOne(body func()) (res PathResult) {
 	var endReason string
 	var uncaught string
+	if e.interp != nil {
+		e.interp.panicStack = nil
+	}
 	func() {
 		defer func() {
 			if p := recover(); p != nil {
@@ -578,6 +584,9 @@ func (e *Explorer) runOne(body func()) (res PathResult) {
 				default:
 					// runtime.Error or string raised by the interpreter on behalf of the target
 					uncaught = fmt.Sprintf("panic: %v", p)
+					if e.interp != nil && os.Getenv("SYMX_PANIC_STACK") != "" {
+						uncaught += e.interp.takePanicStack()
+					}
 					if os.Getenv("SYMX_DEBUG_PANIC") != "" {
 						panic(p)
 					}
